@@ -146,4 +146,93 @@ def test_thrx_fault_budget():
   assert len(r['outcomes']) == 7, r['outcomes']
 
 
-ALL = [test_thrx_lost_update, test_thrx_deadlock, test_thrx_polling_terminates, test_thrx_fault_budget]
+# ---- evx: bounded queue with a planted off-by-one -----------------------------------------------------
+class ToyQueue(object):
+  def __init__(self, cap, bug):
+    self.items, self.cap, self.bug = [], cap, bug
+
+  def push(self, x):
+    if len(self.items) < self.cap + (1 if self.bug and 9 in self.items else 0):
+      self.items.append(x)
+      return True
+    return False
+
+  def pop(self):
+    return self.items.pop(0) if self.items else None
+
+
+class ToySystem(object):
+  def __init__(self, bug):
+    self.bug = bug
+
+  def reset(self):
+    self.q = ToyQueue(2, self.bug)
+    self.ref = []
+
+  def enabled(self):
+    return [('push', 1), ('push', 9), ('pop',)]
+
+  def apply(self, ev):
+    if ev[0] == 'push':
+      got = self.q.push(ev[1])
+      want = len(self.ref) < 2
+      if want:
+        self.ref.append(ev[1])
+      if got != want:
+        return ('capacity', 'push accepted=%r, reference %r' % (got, want))
+    else:
+      got = self.q.pop()
+      want = self.ref.pop(0) if self.ref else None
+      if got != want:
+        return ('order', 'pop %r, reference %r' % (got, want))
+    return None
+
+  def canon(self):
+    return tuple(self.q.items)
+
+  def check(self):
+    return None
+
+  def on_new_state(self):
+    return None
+
+  def close(self):
+    pass
+
+
+def test_evx_finds_planted_bug():
+  from . import evx
+  ok = evx.bfs(ToySystem(False), 6)
+  assert not ok['violations'] and ok['exhausted'] and ok['states'] == 7, ok
+  bad = evx.bfs(ToySystem(True), 6)
+  assert bad['violations'] and bad['violations'][0][0] == 'capacity', bad
+  assert len(bad['violations'][0][2]) == 3, bad['violations'][0]      # BFS: the shortest counterexample
+
+
+# ---- segx: a receiver whose outcome depends on where the stream is cut -------------------------------------
+def test_segx_detects_cut_sensitivity():
+  from . import segx, env
+  env.boot()
+  from twisted.protocols.basic import LineOnlyReceiver
+  from carbon import events
+
+  class Sane(LineOnlyReceiver):
+    delimiter = b'\n'
+
+    def lineReceived(self, line):
+      events.metricReceived(line.decode(), (1, 1.0))
+
+  class PerChunk(Sane):
+    def dataReceived(self, data):
+      # bug: a chunk ending in the middle of a line loses the partial line
+      if not data.endswith(b'\n') and b'\n' in data:
+        data = data[:data.rindex(b'\n') + 1]
+      return Sane.dataReceived(self, data)
+  stream = b'ab\ncd\nef\n'
+  r = segx.explore_stream(Sane, stream, 2)
+  assert r['divergence'] is None and r['max_states_per_offset'] == 1 and len(r['final_raw']) == 3, r
+  r = segx.explore_stream(PerChunk, stream, 2)
+  assert r['divergence'] is not None, r
+
+
+ALL = [test_evx_finds_planted_bug, test_segx_detects_cut_sensitivity, test_thrx_lost_update, test_thrx_deadlock, test_thrx_polling_terminates, test_thrx_fault_budget]
